@@ -229,6 +229,20 @@ func buildHTMLSnapshot(b *htmlBranch, hostile bool, seed int64) (*stack.Snapshot
 	mkCall := func(tag string) stack.Call {
 		c := stack.Call{Location: locOf[b.Loc], Line: 42}
 		c.Func = stack.Func{Complete: s(tag + "complete"), ImportPath: s(tag + "fimport"), DirName: s(tag + "dir"), Name: s(tag+"name") + ".(*T)." + s(tag+"method"), IsExported: b.Exported, IsPkgMain: b.Main}
+		if hostile {
+			// names that only look like methods: an opening parenthesis that is never closed, only a
+			// receiver, a trailing parenthesis
+			switch rng.Intn(5) {
+			case 1:
+				c.Func.Name = "(*Conn" + strings.ReplaceAll(s(tag+"name"), ")", "]")
+			case 2:
+				c.Func.Name = "(" + strings.ReplaceAll(s(tag+"name"), ")", "]")
+			case 3:
+				c.Func.Name = "(" + s(tag+"name") + ")"
+			case 4:
+				c.Func.Name = s(tag+"name") + "("
+			}
+		}
 		if b.HasImport {
 			c.ImportPath = s(tag+"import") + "/vendor/" + s(tag+"import2")
 		}
